@@ -1,7 +1,7 @@
 \* test generation: every history of up to 5 operations over 2 mappings and 5 slots
 SPECIFICATION Spec
 CONSTANTS
-  Kinds = {"owned", "raw"}
+  Kinds = {"owned", "raw", "failed_build", "failed_wrap"}
   MaxMaps = 2
   MaxSlots = 5
   MaxOps = 5
